@@ -257,6 +257,7 @@ class Engine:
             rep.status, rep.reason = "contract-error", "no contract"
             return rep
         rep.digest = info.digest()
+        self.fork_checks = bool(c.extra.get("fork_checks"))
         variants = c.variants or [{}]
         try:
             for vi, var in enumerate(variants):
@@ -338,7 +339,7 @@ class Engine:
             p.assume(p.eval_contract_expr(expr))
         # vacuity guard: the precondition must be satisfiable
         if p.dpos == 0 and not p.decisions:
-            if forked_check(p.solver, 2000) == z3.unsat:
+            if p.path_check() == z3.unsat:
                 ob = p.oblige("requires-satisfiable", "vacuity", z3.BoolVal(False), c.props)
                 ob.pc = []
                 return
